@@ -53,6 +53,7 @@ type env struct {
 	rep     *lib.Report
 	chans   []string       // local channel ids of model channels 0 and 1: channel-11, channel-1
 	chanNum []int
+	obsItems []string
 	remote  []int          // channel number of each channel's REMOTE end (always different from the local one)
 	alias   [3]tok.Token   // model token ids 0,1,2 ; voucher alias of channel t
 	vAlias  [3]string      // voucher denoms
@@ -126,6 +127,7 @@ func main() {
 		items = append(items, e.history(e.gen(i%2 == 0)))
 	}
 	e.observations()
+	items = append(items, e.obsItems...)
 	// lifecycle histories (genesis export -> new app from the exported state) change the chain itself: they run last
 	for _, h := range e.lifecycle() {
 		if it := e.history(h); it != "" {
@@ -272,6 +274,22 @@ func (e *env) corpusFiles() [][]opT {
 
 func (e *env) corpus() [][]opT {
 	return append(e.corpusFiles(), [][]opT{
+		// the bank creates an account for a first-time recipient: the derived sender of (channel-11's remote end, sender 2) has none;
+		// a memo call from it is refused, then it RECEIVES coins (it is a packet's receiver) and the same call goes through;
+		// a packet whose receiver is its own derived sender carries a call with value: the transfer step credits the receiver
+		// (account created), the call spends 3 of the 20 just received
+		{{Kind: "recv", Chan: 0, Sender: 2, RawDenom: "uo0", Denom: "own10", Amt: 6, Receiver: "hex", User: 1, Memo: "call"},
+			{Kind: "recv", Chan: 0, Sender: 2, RawDenom: "fxback", Denom: "fx", Amt: 20, Receiver: "derived", User: 0, Memo: "callvalue"},
+			{Kind: "recv", Chan: 0, Sender: 2, RawDenom: "uo0", Denom: "own10", Amt: 6, Receiver: "hex", User: 1, Memo: "call"},
+			{Kind: "recv", Chan: 0, Sender: 2, RawDenom: "uo0", Denom: "own10", Amt: 4, Receiver: "derived", User: 0, Memo: "callvalue"},
+			{Kind: "recv", Chan: 0, Sender: 2, RawDenom: "fxback", Denom: "fx", Amt: 5, Receiver: "derived", User: 0, Memo: "callrevert"}},
+		// the prefix rule of BaseDenomToBridgeDenom: the channel-11 token is taken for the target channel-1 (its voucher is escrowed
+		// there, not burnt) by EVM sends and by the bridge's SendToFx->IBC path alike; over channel-7 it is refused. Refunds
+		// unescrow the voucher; with a record they come back as ERC-20
+		{{Kind: "sendevm", Chan: 1, User: 0, Denom: "alias0", Amt: 44}, {Kind: "sendplain", Chan: 1, User: 1, Denom: "alias0", Amt: 21},
+			{Kind: "sendevm", Chan: 2, User: 0, Denom: "alias0", Amt: 9}, {Kind: "sendevm", Chan: 1, User: 2, Denom: "alias1", Amt: 13},
+			{Kind: "timeout", Chan: 1, Seq: 12}, {Kind: "ack", Chan: 1, Seq: 11, OK: false}, {Kind: "ack", Chan: 1, Seq: 13, OK: true},
+			{Kind: "timeoutraw", Chan: 1, Seq: 11}},
 		// ICS-20 channels are unordered: three EVM-started transfers with consecutive sequences in flight on one channel, the
 		// LAST one is acknowledged first (success) — the records of the two below it must live on until their own timeout /
 		// error acknowledgement, which must come back as ERC-20
@@ -468,15 +486,15 @@ func (e *env) gen(avoidKnown bool) []opT {
 			if r.Chance(5) {
 				o.Amt = 0
 			}
-			if ch == 0 && r.Chance(8) { // the receiver is the derived memo-call sender of (this channel, sender 2) itself
-				o.Receiver, o.Sender = "derived", 2
-			}
 			if strings.HasPrefix(o.Memo, "call") && r.Chance(60) { // a derived sender that has an account
 				if ch == 0 {
 					o.Sender = 0
 				} else if ch == 1 {
 					o.Sender = 1
 				}
+			}
+			if ch == 0 && r.Chance(8) { // the receiver is the derived memo-call sender of (this channel, sender 2) itself
+				o.Receiver, o.Sender = "derived", 2
 			}
 			ops = append(ops, o)
 		case x < 84 && len(inflight) > 0:
@@ -793,6 +811,10 @@ func (e *env) history(ops []opT) string {
 		pairs = append(pairs, -2) // the alias vouchers have bank metadata of their own (model: pseudo pair VoucherMeta)
 	}
 	sort.Slice(pairs, func(i, j int) bool { return pairs[i] < pairs[j] })
+	accts := append([]int64{}, e.accts...)
+	if c.App.AccountKeeper.HasAccount(B, derived(7, 2).Bytes()) { // (got one in an earlier lifecycle history)
+		accts = append(accts, 1702)
+	}
 	var seqs []string
 	for i, ch := range e.chans {
 		q, _ := c.App.IBCKeeper.ChannelKeeper.GetNextSequenceSend(B, port, ch)
@@ -931,15 +953,21 @@ func (e *env) history(ops []opT) string {
 			}
 			data := transfertypes.NewFungibleTokenPacketData(raw, fmt.Sprint(o.Amt), remoteSender(o.Sender), receiver, memo)
 			recvSeq++
-			pkt := tok.InPacket(recvSeq, fmt.Sprintf("channel-%d", o.Src), port, ch, data)
+			// (sequences far from the ones local channels send with: the remote channel ids are local ids too, and the
+			// 09-localhost client reads the remote end's commitment out of the local store)
+			pkt := tok.InPacket(100000+recvSeq, fmt.Sprintf("channel-%d", o.Src), port, ch, data)
 
 			// monitor observables before
 			preDump := c.DumpAll(B)
-			ercBefore := e.erc20All(B, user.Hex())
-			bankBefore := c.App.BankKeeper.GetAllBalances(B, user.Acc())
+			ercBefore := e.erc20All(B, tHex)
+			bankBefore := c.App.BankKeeper.GetAllBalances(B, tAcc)
 			c.App.EvmKeeper.SetState(B, e.cCaller, common.Hash{}, nil)
 			preDump = c.DumpAll(B)
-			ok, _ := tok.CoreRecv(c, B, pkt, e.relayer)
+			// through ibc-go's own MsgRecvPacket handler
+			ok, _, rerr := tok.RealRecv(c, B, pkt, e.relayer)
+			if rerr != nil {
+				e.rep.Fail(lib.Failure{Kind: "harness", What: fmt.Sprintf("op %d: the IBC core refused the inbound packet: %v", i, rerr)})
+			}
 			if ok {
 				kind = 1
 			} else {
@@ -950,15 +978,15 @@ func (e *env) history(ops []opT) string {
 			}
 			// ---- monitor: credit exactly as ERC-20 or nothing + error acknowledgement
 			if !ok {
-				if d := lib.DiffDumps(preDump, c.DumpAll(B)); len(d) > 0 {
+				if d := tok.AppDiff(lib.DiffDumps(preDump, c.DumpAll(B))); len(d) > 0 {
 					e.fail("C19:recv:error-ack-left-state", "inbound packet answered with an error acknowledgement changed state", ops, i, d)
 				}
 				if addrOK && o.Amt > 0 && o.Denom != "fx" && isHex {
 					nontrivial = true
 				}
 			} else {
-				ercAfter := e.erc20All(B, user.Hex())
-				bankAfter := c.App.BankKeeper.GetAllBalances(B, user.Acc())
+				ercAfter := e.erc20All(B, tHex)
+				bankAfter := c.App.BankKeeper.GetAllBalances(B, tAcc)
 				sumErc, nTok := big.NewInt(0), 0
 				for t, b := range ercAfter {
 					if d := new(big.Int).Sub(b, ercBefore[t]); d.Sign() != 0 {
@@ -966,8 +994,10 @@ func (e *env) history(ops []opT) string {
 						nTok++
 					}
 				}
-				bankDelta := bankAfter.Sub(bankBefore...)
-				if o.RawDenom == "fxback" {
+				bankDelta, _ := bankAfter.SafeSub(bankBefore...) // (a negative entry = the receiver paid something: not zero, not the credit)
+				if o.Receiver == "derived" && o.Memo == "callvalue" {
+					// the receiver is the payer of its own memo call's value: exactness is the model comparison's matter
+				} else if o.RawDenom == "fxback" {
 					// reading: the native coin stays the native (EVM) balance — exactly the amount, no ERC-20
 					want := sdk.NewCoins(sdk.NewCoin(fxtypes.DefaultDenom, sdkmath.NewInt(o.Amt)))
 					if !bankDelta.Equal(want) || nTok != 0 {
@@ -1013,26 +1043,40 @@ func (e *env) history(ops []opT) string {
 				ercBefore := e.erc20All(B, user.Hex())
 				bankBefore := c.App.BankKeeper.GetAllBalances(B, user.Acc())
 				has := len(c.App.IBCKeeper.ChannelKeeper.GetPacketCommitment(B, port, ch, o.Seq)) > 0
-				if raw || has {
+				ack := channeltypes.NewResultAcknowledgement([]byte{1})
+				if !o.OK {
+					ack = channeltypes.NewErrorAcknowledgement(fmt.Errorf("refused"))
+					if o.AckKind == "errempty" { // still an error acknowledgement: the oneof is Acknowledgement_Error
+						ack = channeltypes.Acknowledgement{Response: &channeltypes.Acknowledgement_Error{Error: ""}}
+					}
+				} else if o.AckKind == "result0" {
+					ack = channeltypes.NewResultAcknowledgement([]byte{0})
+				}
+				switch {
+				case !raw && o.AckKind != "onclose":
+					// through ibc-go's OWN MsgAcknowledgement / MsgTimeout handlers (commitment check and deletion, proof through the
+					// 09-localhost client, application callback; a callback error fails the message as a whole)
+					cbErr = tryOn(B, func(ctx sdk.Context) error {
+						if isAck {
+							return tok.RealAck(c, ctx, sp.pkt, ack.Acknowledgement(), e.relayer)
+						}
+						return tok.RealTimeout(c, ctx, sp.pkt, e.relayer)
+					})
+					if !has && cbErr != nil {
+						e.rep.Fail(lib.Failure{Kind: "harness", What: fmt.Sprintf("op %d: a delivery for a packet without commitment is a no-op for the core, got: %v", i, cbErr)})
+					}
+					delivered = has && cbErr == nil
+				case raw || has:
 					cbErr = tryOn(B, func(ctx sdk.Context) error {
 						if !raw {
-							// ibc-go core Acknowledgement/Timeout: the commitment is deleted before the callback (transcribed)
+							// ibc-go TimeoutOnClose (needs a proof that the REMOTE end of the channel is closed — the remote ids are local
+							// channels here, so this one kind stays transcribed): commitment deleted, then the same application callback
 							ctx.KVStore(c.App.GetKey(ibcexported.StoreKey)).Delete(host.PacketCommitmentKey(port, ch, o.Seq))
 						}
 						if isAck {
-							ack := channeltypes.NewResultAcknowledgement([]byte{1})
-							if !o.OK {
-								ack = channeltypes.NewErrorAcknowledgement(fmt.Errorf("refused"))
-								if o.AckKind == "errempty" { // still an error acknowledgement: the oneof is Acknowledgement_Error
-									ack = channeltypes.Acknowledgement{Response: &channeltypes.Acknowledgement_Error{Error: ""}}
-								}
-							} else if o.AckKind == "result0" {
-								ack = channeltypes.NewResultAcknowledgement([]byte{0})
-							}
 							return stack.OnAcknowledgementPacket(ctx, sp.pkt, ack.Acknowledgement(), e.relayer)
 						}
 						if o.AckKind == "onclose" {
-							// ibc-go TimeoutOnClose: the channel has been closed by the counterparty; same application callback
 							chn, _ := c.App.IBCKeeper.ChannelKeeper.GetChannel(ctx, port, ch)
 							chn.State = channeltypes.CLOSED
 							c.App.IBCKeeper.ChannelKeeper.SetChannel(ctx, port, ch, chn)
@@ -1044,10 +1088,10 @@ func (e *env) history(ops []opT) string {
 						return stack.OnTimeoutPacket(ctx, sp.pkt, e.relayer)
 					})
 					delivered = cbErr == nil
-					if cbErr != nil && lifecycle {
-						e.rep.Notes = append(e.rep.Notes, fmt.Sprintf("observation (lifecycle history, op %d %s %s/%d, EVM-started=%v, record lost in export=%v): the delivery is refused: %v",
-							i, o.Kind, ch, o.Seq, sp.evm, sp.lost, cbErr))
-					}
+				}
+				if cbErr != nil && lifecycle {
+					e.rep.Notes = append(e.rep.Notes, fmt.Sprintf("observation (lifecycle history, op %d %s %s/%d, EVM-started=%v, record lost in export=%v): the delivery is refused: %v",
+						i, o.Kind, ch, o.Seq, sp.evm, sp.lost, cbErr))
 				}
 				// ---- monitors: refund form and count, record removal
 				ercAfter := e.erc20All(B, user.Hex())
@@ -1167,7 +1211,11 @@ func (e *env) history(ops []opT) string {
 	bz, _ := json.Marshal(ops)
 	e.rep.Case(string(bz), nontrivial)
 	e.rep.Sample(ops)
-	return fmt.Sprintf("mk_hist %s %s %s %s\n   %s", init, lib.ZList(pairs), lib.ZList(e.accts), lib.List(seqs), lib.List(items))
+	var ids []string
+	for i, n := range e.chanNum {
+		ids = append(ids, lib.Pair(lib.Z(int64(i)), lib.Z(int64(n))))
+	}
+	return fmt.Sprintf("mk_hist %s %s %s %s %s\n   %s", init, lib.ZList(pairs), lib.ZList(accts), lib.List(seqs), lib.List(ids), lib.List(items))
 }
 
 func (e *env) replay(path string) {
@@ -1204,6 +1252,7 @@ func (e *env) observations() {
 	// still hold for it: refunded to the sender as ERC-20, exactly once, record removed (monitors of history()).
 	h := e.history([]opT{{Kind: "sendevm", Chan: 1, User: 0, Denom: "alias0", Amt: 44}, {Kind: "timeout", Chan: 1, Seq: 11},
 		{Kind: "timeoutraw", Chan: 1, Seq: 11}, {Kind: "sendevm", Chan: 1, User: 1, Denom: "alias0", Amt: 17}, {Kind: "ack", Chan: 1, Seq: 12, OK: true}})
+	e.obsItems = append(e.obsItems, h) // compared with the model like every other history (the model has the prefix rule)
 	note("ERC-20 of the channel-11 token sent over channel-1: accepted=%v (prefix match of the alias path); refunded as ERC-20 exactly once on timeout, record removed on success: %d monitor failures",
 		strings.Contains(h, "(SendFromEvm 1 0 (DAlias 0) 44, mk_obs 1 "), len(e.rep.Failures)-failuresBefore)
 
